@@ -700,6 +700,10 @@ fn scenario_opts(idx: u64, rng: &mut Rng) -> ScenarioOpts {
     let mut cw = w.clone();
     cw.frame = 18;
     cw.recurse = 150;
+    // storage instructions with reserved destination registers ($ssp, $sp, $fp, $hp among
+    // them): a register write that skips the reserved check would move a region boundary
+    cw.storage = 8;
+    cw.storage_rich = 400;
     // no free schedule here: with recursion and nested calls a free run is not bounded by gas
     let schedule = match idx % 8 {
         3 => 1,
